@@ -71,7 +71,8 @@ def handle : Handler
         let r ← opnd neg e d p.toNat (p.toNat + 1)
         some (out (mpf_div_2exp 0 (mkSt r default default) .r k.toNat))
       else none
-  | "as7_add", [.num m, .num p, .num un, .num ue, .vec ud, .num vn, .num ve, .vec vd] =>
+  | op, [.num m, .num p, .num un, .num ue, .vec ud, .num vn, .num ve, .vec vd] =>
+      if op != "as7_add" && op != "as7_sub" then none else
       if !precOk p then none else do
         let P := p.toNat
         -- alias modes: 0 all distinct, 1 r == u, 2 r == v, 3 u == v (r distinct), 4 r == u == v
@@ -92,6 +93,7 @@ def handle : Handler
             let r ← opnd un ue ud P (P + 1)
             some (mkSt r default default, Src.r, Src.r)
           else none
+        if op == "as7_sub" then some (out (mpf_sub st a b)) else
         let s ← mpf_add 0 st a b
         some (out s)
   | _, _ => none
